@@ -121,22 +121,25 @@ def choose_overload(name, candidates, engine, receiver, context, args, kwargs):
         kwargs[key] = arg_evaluator(key, value)
 
     delegate = None
-    winner_mapping = None
     for level in candidates2:
+        matches = []
         for c, mapping in level:
             try:
                 d = c.get_delegate(receiver, engine, context, args, kwargs)
             except exceptions.ArgumentException:
                 pass
             else:
-                if delegate is not None:
-                    if _is_specialization_of(winner_mapping, mapping):
-                        continue
-                    elif not _is_specialization_of(mapping, winner_mapping):
-                        raise_ambiguous()
-                delegate = d
-                winner_mapping = mapping
-        if delegate is not None:
+                matches.append((d, mapping))
+        if matches:
+            # the winner is the match that is more specific than every
+            # other match of this level, whatever the enumeration order
+            for d, mapping in matches:
+                if all(m is mapping or _is_specialization_of(mapping, m)
+                       for _, m in matches):
+                    delegate = d
+                    break
+            else:
+                raise_ambiguous()
             break
 
     if delegate is None:
